@@ -249,7 +249,7 @@ std::vector<std::string>* g_faSink = nullptr;
 void faSink(const std::string& s) { if (g_faSink) { g_faSink->push_back(s); } }
 }
 
-VDRIVE_OP(faantitrace)
+json runStepTrace(const json& c, const InclParam& ip)
 {
 	FA a = MakeFA(c.at("A"));
 	FA b = MakeFA(c.at("B"));
@@ -257,13 +257,7 @@ VDRIVE_OP(faantitrace)
 	g_faSink = &events;
 	VATA::Util::Verif::Sink() = faSink;
 	bool v;
-	try
-	{
-		InclParam ip;
-		ip.SetAlgorithm(InclParam::e_algorithm::antichains);
-		ip.SetUseSimulation(false);
-		v = FA::CheckInclusion(a, b, ip);
-	}
+	try { v = FA::CheckInclusion(a, b, ip); }
 	catch (...) { VATA::Util::Verif::Sink() = nullptr; g_faSink = nullptr; throw; }
 	VATA::Util::Verif::Sink() = nullptr;
 	g_faSink = nullptr;
@@ -277,4 +271,22 @@ VDRIVE_OP(faantitrace)
 	res["events"] = evs;
 	res["v"] = v ? "T" : "F";
 	return res;
+}
+
+VDRIVE_OP(faantitrace)
+{
+	InclParam ip;
+	ip.SetAlgorithm(InclParam::e_algorithm::antichains);
+	ip.SetUseSimulation(false);
+	return runStepTrace(c, ip);
+}
+
+// {"op":"facongrtrace","A","B","sel":"cd"|"cb"}: the same for the congruence selections (events Start, Step, Add)
+VDRIVE_OP(facongrtrace)
+{
+	InclParam ip;
+	ip.SetAlgorithm(InclParam::e_algorithm::congruences);
+	ip.SetSearchOrder(c.at("sel").get<std::string>() == "cb" ? InclParam::e_search_order::breadth : InclParam::e_search_order::depth);
+	ip.SetUseSimulation(false);
+	return runStepTrace(c, ip);
 }
